@@ -356,6 +356,18 @@ func build(tier string) []*vkit.Scenario {
 			}
 		}
 	}
+	// one queue entry whose unsent remainder is around / above the 64 KiB unit while the socket can
+	// take a whole unit at once (a call larger than the unit is queued as one entry, never merged):
+	// the flush has to carry on inside the entry after a write that the kernel accepted in full
+	for _, m := range ekit.Modes {
+		for _, first := range []call{W(KL + 65535), W(KL + 65537), W(2 * KL), V(KL, 65537), V(KL+1, 1, 65536)} {
+			add(cfg{mode: m, k: KL, chunk: 0, w1: []call{first, W(3)}, p: 1, d: 0, large: true})
+			if thorough {
+				add(cfg{mode: m, k: KL, chunk: 0, w1: []call{first, W(65535), W(3)}, p: 1, d: 1, large: true})
+				add(cfg{unix: true, mode: m, k: KL, chunk: 0, w1: []call{first, W(3)}, p: 1, d: 1, large: true})
+			}
+		}
+	}
 	return out
 }
 
